@@ -169,6 +169,25 @@ def repeat_blocks(rnd, n):
     return out[:n]
 
 
+def store_pop_blocks(rnd, n):
+    """a store (each kind) with stack elements to discard around it: programs where a POP directly follows or precedes
+    the store, or follows a DUP/SWAP -- the instances on which the pruning constraints about POP decide"""
+    T = lambda txt: evm.from_plain_string(txt)
+    fam = []
+    for st in ("MSTORE", "MSTORE8", "SSTORE"):
+        for shape in ("%s POP", "SWAP2 POP SWAP1 %s", "%s POP POP", "POP %s", "SWAP2 SWAP1 %s POP", "DUP3 DUP3 %s POP",
+                      "PUSH 1 PUSH 0 %s POP", "DUP1 PUSH 0 %s POP POP", "SWAP1 %s POP", "%s SWAP1 POP"):
+            fam.append(T(shape % st))
+    core = [T("SWAP2 POP SWAP1 MSTORE8"), T("MSTORE8 POP"), T("SWAP2 POP SWAP1 MSTORE"), T("SWAP2 POP SWAP1 SSTORE")]
+    out, seen = [], set()
+    for b in core + rnd.sample(fam, min(len(fam), max(0, n - len(core)))):
+        t = tuple(b)
+        if t not in seen:
+            seen.add(t)
+            out.append(b)
+    return out[:n]
+
+
 def encode(key, S, params):
     """run the real encoder; returns (BlockOptimizer, smt2 text)"""
     from smt_encoding.block_optimizer import BlockOptimizer
@@ -377,6 +396,8 @@ def build_cases(quick, seed):
             cases.append({"block": b, "opts": o, "_group": g, "kind": "load-flow-store-blocks", "_cpu": 60})
         for b in ternary_blocks(random.Random(seed + 3000 + oi), 8 if quick else 60):
             cases.append({"block": b, "opts": o, "_group": g, "kind": "ternary-blocks", "_cpu": 60})
+        for b in store_pop_blocks(random.Random(seed + 4000 + oi), 6 if quick else 30):
+            cases.append({"block": b, "opts": o, "_group": g, "kind": "store-pop-blocks", "_cpu": 60})
         for i in range(n_rand):
             b, k = gen.gen_block(rnd, "short")
             cases.append({"block": b[:6], "opts": o, "_group": g, "kind": "short-random", "_cpu": 60})
